@@ -103,6 +103,8 @@ func genCase(t *rapid.T) Case {
 	}
 	ncmd := rapid.IntRange(1, 8).Draw(t, "ncmd")
 	c := Case{}
+	// a few cases carry multi-megabyte arguments in the quick tier too (size classes around 1 MiB, 2 MiB, 4 MiB)
+	huge := rapid.IntRange(0, 39).Draw(t, "hugeCase") == 0
 	for i := 0; i < ncmd; i++ {
 		na := rapid.IntRange(1, 6).Draw(t, "nargs")
 		if rapid.IntRange(0, 30).Draw(t, "many") == 0 {
@@ -111,6 +113,10 @@ func genCase(t *rapid.T) Case {
 		cmd := make([]Arg, na)
 		for j := range cmd {
 			cmd[j] = genArg(big).Draw(t, "arg")
+		}
+		if huge && na > 1 && i < 3 {
+			sz := rapid.SampledFrom([]int{1<<20 - 1, 1 << 20, 1<<20 + 1, 1<<20 + 4097, 2<<20 + 3, 4<<20 + 1}).Draw(t, "hugeSize")
+			cmd[1+rapid.IntRange(0, na-2).Draw(t, "hugeIdx")] = Arg{B: []byte{byte(sz), 0x0d, 0x0a, 'x'}, Rep: (sz + 3) / 4}
 		}
 		// the first element is a command name: Redis command names are ASCII
 		// words (the tool lower-cases them), so it is drawn from names, not bytes
